@@ -39,6 +39,7 @@ func runC08(p *core.Prog, r *core.Report) {
 	c10R3(p, r, "C08.R10")
 	whoMayRemoveRule(p, r, "C08.R11")
 	c08R12(p, r, "C08.R12")
+	c08R13(p, r)
 }
 
 // c08R8: an index entry is marked because the index lists it, not because it could be loaded. Before
@@ -1316,7 +1317,15 @@ func c08R12(p *core.Prog, r *core.Report, rule string) {
 			root = root.Parent()
 		}
 		var parts []string
-		for _, o := range core.Origins(key, core.SliceOpts{Helpers: core.Helpers(root, 2)}) {
+		// (a helper that is handed the key: the key is what its callers in the package pass)
+		all, unexp := map[*ssa.Function]bool{}, map[*ssa.Function]bool{root: true}
+		for _, f := range pkgFuncs(p, ocidirRel) {
+			all[f] = true
+			if f.Object() != nil && !f.Object().Exported() {
+				unexp[f] = true
+			}
+		}
+		for _, o := range core.Origins(key, core.SliceOpts{Helpers: unexp, Callers: all}) {
 			switch o.Kind {
 			case core.OField:
 				parts = append(parts, "field "+o.Field)
@@ -1378,5 +1387,48 @@ func c08R12(p *core.Prog, r *core.Report, rule string) {
 		}
 		r.Check(s.sig == best, rule, p.FuncName(s.fn), lab[s.fn].next("bookkeeping key"), p.Pos(s.pos),
 			fmt.Sprintf("this access builds its key from [%s], the other accesses from [%s]: the two spellings of one layout get separate entries, and the lock taken under one is not seen by the sweep that looks under the other", s.sig, best))
+	}
+}
+
+// ---------------------------------------------------------------------------------------------
+// every directory a temp file is made in is swept
+
+// c08R13: "when a collection does run … leftover temporary files are removed". The scheme makes its
+// temp files next to their final names: under blobs/<algorithm>/ for content, and in the top directory
+// of the layout for index.json and oci-layout. A sweep that only walks the blob directories leaves the
+// temp files of an interrupted index write behind for good (found D27).
+func c08R13(p *core.Prog, r *core.Report) {
+	const rule = "C08.R13"
+	r.Rule(rule, "every directory a temp file is made in is swept: for each os.CreateTemp of scheme/ocidir the class of its directory (under blobs/, or the layout's top directory) is one in which the sweep of Close removes files", 2)
+	closeFn := p.Method(ocidirRel, "OCIDir", "Close")
+	if closeFn == nil {
+		r.MissingAnchor(rule, ocidirRel+".(*OCIDir).Close")
+		return
+	}
+	class := func(v ssa.Value) string {
+		for _, l := range pathLeaves(v) {
+			if s, ok := core.ConstString(l); ok && s == "blobs" {
+				return "blobs"
+			}
+		}
+		return "top"
+	}
+	swept := map[string]bool{}
+	for _, ss := range sweepSites(closeFn) {
+		swept[class(core.CallArg(ss.rm, 0))] = true
+	}
+	n := 0
+	for _, fn := range pkgFuncs(p, ocidirRel) {
+		lab := labeler{}
+		for _, c := range core.CallsTo(fn, func(f *types.Func) bool { return isOS(f, "CreateTemp") }) {
+			n++
+			cl := class(core.CallArg(c, 0))
+			where := map[string]string{"blobs": "under blobs/", "top": "in the layout's top directory"}[cl]
+			r.Check(swept[cl], rule, p.FuncName(fn), lab.next("temp file "+where), p.Pos(c.Pos()),
+				"temp files are made "+where+", where the sweep of Close removes nothing: what an interrupted write leaves there is never collected")
+		}
+	}
+	if n == 0 {
+		r.MissingAnchor(rule, "os.CreateTemp calls in "+ocidirRel)
 	}
 }
